@@ -940,6 +940,11 @@ pub fn check_shape(shape: &VerifShape, findings: &mut Vec<Finding>, entries: imp
     for level in 1..7 {
         let files: Vec<_> = shape.files.iter().filter(|f| f.level == level).collect();
         for w in files.windows(2) {
+            if w[0].largest.0 == w[1].smallest.0 {
+                // two versions of one user key straddle a file boundary inside a level (what
+                // compaction's boundary-file handling exists for)
+                rt::probe("shape:user_key_split_across_files");
+            }
             if !internal_lt(&w[0].largest, &w[1].smallest) {
                 let class = if internal_lt(&w[1].smallest, &w[0].smallest) { "level-unsorted" } else { "level-overlap" };
                 findings.push(Finding::new(
